@@ -61,6 +61,8 @@ fn dst6(c: &str) -> [u8; 16] {
         "own2" => "fd00::2",
         "own-ll" => "fe80::1",
         "other" => "fd00::77",
+        "other-tail" => "fd00:5::1",
+        "sol-other" => "ff02::1:ff55:1",
         "all-nodes" => "ff02::1",
         "sol-node" => "ff02::1:ff00:1",
         "mc-other" => "ff02::99",
